@@ -221,7 +221,7 @@ pub fn bounds_for(ctx: &Ctx, len: usize) -> Bounds {
     // bounded by lowering the depth for long item sequences.
     if ctx.tier.is_thorough() {
         let depth = if len <= 4 { 5 } else if len <= 9 { 4 } else { 3 };
-        Bounds { depth, max_splits: 2, all_split_points: len <= 6 }
+        Bounds { depth, max_splits: if len <= 6 { 2 } else { 1 }, all_split_points: len <= 6 }
     } else {
         let depth = if len <= 4 { 4 } else if len <= 9 { 3 } else { 2 };
         Bounds { depth, max_splits: 1, all_split_points: len <= 4 }
@@ -345,7 +345,7 @@ pub fn run(ctx: Ctx) -> ! {
         "items_compared": t.2,
         "per_kind": pk,
         "bounds": if ctx.tier.is_thorough() {
-            "rank<=3 sizes{0,1,2,3} stride multipliers{0,1,2} (+3 for rank<=2) all axis orders + rank4 sizes{1,2} multipliers{1,2}; depth 5/4/3 by item count (<=4/<=9/more), <=2 splits, all split points when <=6 items else {0,1,n/2,n-1,n}"
+            "rank<=3 sizes{0,1,2,3} stride multipliers{0,1,2} (+3 for rank<=2) all axis orders + rank4 sizes{1,2} multipliers{1,2}; depth 5/4/3 by item count (<=4/<=9/more), <=2 splits and all split points when <=6 items, else <=1 split at {0,1,n/2,n-1,n}"
         } else {
             "rank<=3 sizes{0,1,2,3} stride multipliers{0,1,2} all axis orders; depth 4/3/2 by item count (<=4/<=9/more), <=1 split, split points {0,1,n/2,n-1,n} (all when <=4 items)"
         },
